@@ -4,11 +4,14 @@
  *   T id kind nargs args...      kind: 1 contiguous 2 vector 3 hvector 4 indexed 5 hindexed 6 indexed_block 7 struct 8 resized 9 subarray
  *                                old types are referenced by id (negative = predefined)
  *   E id size lb ext0 ext1 maxcount nseg (off len)*     reference: type map as byte segments in type-map order
- * argv[2..] = ids whose transfers are skipped (they crashed in a previous run of the same file).
+ * argv[2..]: "from=<index>" transfers start at the index-th type of the file (all types are always built), "only=<id>" transfers
+ *            of that type only, "<id>" transfers of that type skipped.
  * Output:  m id rc size lb extent true_lb true_extent
+ *          p rank id count path            this rank begins that path (the last one of a rank tells where it died)
  *          x id count path code where      code 0 ok, 1 selected byte wrong/missing, 2 byte outside the type map modified, 3 MPI error,
  *                                          4 wrong position/size answer            (path names in PATHS below)
- *          CRASH sig id count path
+ *          CRASH sig rank                  rank = the rank that was running (the ranks are dlopen-ed copies of this program: the
+ *                                          globals seen by the handler are those of the copy that registered last)
  * Run with 2 ranks. */
 #include <mpi.h>
 #include <signal.h>
@@ -25,14 +28,22 @@ typedef struct {
   MPI_Datatype t;
   int built, size, lb, ext0, ext1, maxc, nseg, *segs;
   long ext; /* extent used for the replication of elements */
-  int skip;
+  int skip, extbad; /* extbad: MPI's extent is not the reference's: elements cannot be replicated meaningfully */
 } ty_t;
 static ty_t* T;
-static int NT, g_rank, g_np, c_id, c_cnt, c_path;
+static int NT, g_rank, g_np;
 static void on_sig(int s)
 {
   char b[120];
-  int n = snprintf(b, sizeof b, "CRASH %d %d %d %d rank=%d\n", s, c_id, c_cnt, c_path, g_rank);
+  int r = -1;
+  signal(SIGSEGV, SIG_DFL); /* a fault in here must end the process */
+  signal(SIGFPE, SIG_DFL);
+  signal(SIGBUS, SIG_DFL);
+  signal(SIGABRT, SIG_DFL);
+  if (write(1, "DYING\n", 6) < 0) {
+  }
+  MPI_Comm_rank(MPI_COMM_WORLD, &r); /* answers for the actor that is running now */
+  int n = snprintf(b, sizeof b, "CRASH %d %d\n", s, r);
   if (write(1, b, n) < 0) {
   }
   _exit(70);
@@ -153,9 +164,6 @@ static void test(ty_t* y, int count)
 {
   long n, span;
   long* map = mkmap(y, count, &n, &span);
-  c_id      = y->id;
-  c_cnt     = count;
-  printf("b %d %d %d\n", g_rank, y->id, count);
   int peer  = 1 - g_rank;
   unsigned char* exp = malloc(span + 1);
   char* sel          = calloc(span + 1, 1);
@@ -163,8 +171,10 @@ static void test(ty_t* y, int count)
     sel[map[k]] = 1;
   MPI_Status st;
   for (int path = 0; path < NPATH; path++) {
-    c_path = path;
     int rc = MPI_SUCCESS;
+    if ((path == P_GATHER || path == P_SCATTER) && y->extbad)
+      continue;
+    printf("p %d %d %d %d\n", g_rank, y->id, count, path);
     switch (path) {
       case P_SRS:
         if (g_rank == 0) {
@@ -256,21 +266,26 @@ static void test(ty_t* y, int count)
         }
         break;
       case P_PACK:
-        if (g_rank == 0) {
+        if (g_rank == 0) { /* packs behind pos0 bytes that are already in the buffer */
+          int pos0 = (count & 1) ? 5 : 0;
           unsigned char* src  = gbuf(span, 1, 0);
-          unsigned char* dst  = gbuf(n, 0, 0);
-          unsigned char* expb = malloc(n + 1);
-          char* selb          = malloc(n + 1);
-          int pos = 0, psz = -1;
+          unsigned char* dst  = gbuf(n + pos0, 0, 0);
+          unsigned char* expb = malloc(n + pos0 + 1);
+          char* selb          = malloc(n + pos0 + 1);
+          int pos = pos0, psz = -1;
           MPI_Pack_size(count, y->t, MPI_COMM_WORLD, &psz);
-          rc = MPI_Pack(src + GUARD, count, y->t, dst + GUARD, (int)n, &pos, MPI_COMM_WORLD);
-          for (long k = 0; k < n; k++) {
-            expb[k] = pat(map[k], 0);
-            selb[k] = 1;
+          rc = MPI_Pack(src + GUARD, count, y->t, dst + GUARD, (int)n + pos0, &pos, MPI_COMM_WORLD);
+          for (int k = 0; k < pos0; k++) {
+            expb[k] = GFILL;
+            selb[k] = 0;
           }
-          verify(y, count, path, dst, expb, selb, n, rc);
-          if (rc == MPI_SUCCESS && (pos != n || psz < n))
-            report(y, count, path, 4, pos != n ? pos : psz);
+          for (long k = 0; k < n; k++) {
+            expb[pos0 + k] = pat(map[k], 0);
+            selb[pos0 + k] = 1;
+          }
+          verify(y, count, path, dst, expb, selb, n + pos0, rc);
+          if (rc == MPI_SUCCESS && (pos != n + pos0 || psz < n))
+            report(y, count, path, 4, pos != n + pos0 ? pos : psz);
           free(src);
           free(dst);
           free(expb);
@@ -278,18 +293,20 @@ static void test(ty_t* y, int count)
         }
         break;
       case P_UNPACK:
-        if (g_rank == 0) {
-          unsigned char* src = malloc(n + 1);
+        if (g_rank == 0) { /* unpacks from position pos0 of the packed buffer */
+          int pos0 = (count & 1) ? 5 : 0;
+          unsigned char* src = malloc(n + pos0 + 1);
           unsigned char* dst = gbuf(span, 0, 0);
+          memset(src, 0x5A, pos0);
           for (long k = 0; k < n; k++)
-            src[k] = pak(k, 0);
-          int pos = 0;
-          rc      = MPI_Unpack(src, (int)n, &pos, dst + GUARD, count, y->t, MPI_COMM_WORLD);
+            src[pos0 + k] = pak(k, 0);
+          int pos = pos0;
+          rc      = MPI_Unpack(src, (int)n + pos0, &pos, dst + GUARD, count, y->t, MPI_COMM_WORLD);
           memset(exp, GFILL, span);
           for (long k = 0; k < n; k++)
             exp[map[k]] = pak(k, 0);
           verify(y, count, path, dst, exp, sel, span, rc);
-          if (rc == MPI_SUCCESS && pos != n)
+          if (rc == MPI_SUCCESS && pos != n + pos0)
             report(y, count, path, 4, pos);
           free(src);
           free(dst);
@@ -359,6 +376,7 @@ int main(int argc, char** argv)
   signal(SIGSEGV, on_sig);
   signal(SIGFPE, on_sig);
   signal(SIGBUS, on_sig);
+  signal(SIGABRT, on_sig);
   MPI_Comm_rank(MPI_COMM_WORLD, &g_rank);
   MPI_Comm_size(MPI_COMM_WORLD, &g_np);
   MPI_Comm_set_errhandler(MPI_COMM_WORLD, MPI_ERRORS_RETURN);
@@ -385,13 +403,18 @@ int main(int argc, char** argv)
     for (int k = 0; k < 2 * y->nseg; k++)
       if (fscanf(f, "%d", &y->segs[k]) != 1)
         MPI_Abort(MPI_COMM_WORLD, 3);
-    for (int k = 2; k < argc; k++)
-      if (atoi(argv[k]) == y->id)
+    for (int k = 2; k < argc; k++) {
+      if (!strncmp(argv[k], "from=", 5)) {
+        if (i < atoi(argv[k] + 5))
+          y->skip = 1;
+      } else if (!strncmp(argv[k], "only=", 5)) {
+        if (atoi(argv[k] + 5) != y->id)
+          y->skip = 1;
+      } else if (atoi(argv[k]) == y->id)
         y->skip = 1;
+    }
     y->t  = MPI_DATATYPE_NULL;
-    c_id  = y->id;
-    c_cnt = -1;
-    c_path = -1;
+    printf("p %d %d -1 -1\n", g_rank, y->id);
     int rc = build(y);
     if (rc != MPI_SUCCESS || y->t == MPI_DATATYPE_NULL) {
       if (g_rank == 0)
@@ -406,7 +429,8 @@ int main(int argc, char** argv)
     MPI_Type_get_true_extent(y->t, &tlb, &tex);
     if (g_rank == 0)
       printf("m %d 0 %d %ld %ld %ld %ld\n", y->id, sz, (long)lb, (long)ex, (long)tlb, (long)tex);
-    y->ext = (ex == y->ext1) ? y->ext1 : y->ext0;
+    y->ext    = (ex == y->ext1) ? y->ext1 : y->ext0;
+    y->extbad = ex != y->ext0 && ex != y->ext1;
   }
   fclose(f);
   static const int counts[] = {0, 1, 2, 3, 5};
@@ -414,7 +438,7 @@ int main(int argc, char** argv)
     if (!T[i].built || T[i].skip)
       continue;
     for (int c = 0; c < 5; c++)
-      if (counts[c] <= T[i].maxc)
+      if (counts[c] <= T[i].maxc && !(T[i].extbad && counts[c] > 1))
         test(&T[i], counts[c]);
   }
   MPI_Barrier(MPI_COMM_WORLD);
